@@ -25,7 +25,9 @@ ENGINE = "hypothesis + per-case enumeration of positions"
 TECHNIQUE = "metamorphic property-based testing: every parser-defined position of a generated valid configuration gets a foreign key / loses a required key, through four channels"
 LEVEL_TEXT = ("For each generated (parser, valid configuration) pair all mapping positions that the parser defines are enumerated and mutated "
               "one at a time; each mutant must be rejected with an error naming the key, through object, config text, command line and "
-              "environment. Exploration over parsers and configurations, complete over the positions of each configuration.")
+              "environment. A fixed family of required arguments (top level, group, subcommand, nested subcommand, embedded parsers) x omitted / null / "
+              "section left out x channels x defaults flag is enumerated completely. Exploration over parsers and configurations, complete over "
+              "the positions of each configuration.")
 LEVEL_NOTE = ("Trusted: the position walker, which follows the generator's own shape of every value (never the library's view). The foreign key "
               "has a unique name (zq7) that occurs nowhere else, so 'the message names it' is a plain substring test.")
 RULE = ("case = (parser recipe, valid values); one evaluation per (position, mutation, channel). non-trivial = mutation position at depth >= 2 or "
